@@ -72,6 +72,8 @@ def _hook_open() -> None:
     pio._pv_hooked = True  # type: ignore
 
 
+# characters YAML emitters treat specially (NEL, LS, PS, BOM, NBSP, CR, DEL): the C and the pure-Python emitter of PyYAML differ on some
+HOSTILE = ['first\x85second', 'k\x85', 'a\u2028b', 'a\u2029b', '\ufeffbom', 'nb\xa0sp', 'cr\rlf', 'del\x7f', '\x85', 'x\x85 y']
 SPICE = ['é', '日本語', 'line1\nline2', 'tab\there', '😀', 'ñandú', ' leading', 'trailing ', 'quote"s', "it's", 'yes', 'null', '~', '1e3', '---', 'a: b', '# c', '']
 
 
@@ -100,8 +102,8 @@ def representable(d: t.Any, fmt: str) -> bool:
 
 def spice(draw: t.Any, v: t.Any, depth: int = 0) -> t.Any:
     """Replace some strings by non-ASCII / multi-line ones (validity is re-checked by the caller)."""
-    if isinstance(v, str) and draw(st.integers(0, 2)) == 2:
-        return draw(st.sampled_from(SPICE)) + (v if draw(st.booleans()) else '')
+    if isinstance(v, str) and draw(st.booleans()):
+        return draw(st.sampled_from(HOSTILE if draw(st.integers(0, 2)) == 2 else SPICE)) + (v if draw(st.booleans()) else '')
     if isinstance(v, list) and depth < 5:
         return [spice(draw, x, depth + 1) for x in v]
     if isinstance(v, dict) and depth < 5:
@@ -116,7 +118,7 @@ def cases(draw, specs: st.SearchStrategy[t.Any]) -> t.Any:
         spec = ('union', 'Optional', (spec,))       # documents may then be null
     nd = tg.node(spec)
     v = tg.plainify(draw(nd.valid()))
-    if draw(st.integers(0, 2)) == 2:
+    if draw(st.booleans()):
         v2 = spice(draw, v)
         if isinstance(nd.ref(v2), tg.Acc):
             v = v2
